@@ -1857,7 +1857,7 @@ func TestC08(t *testing.T) {
 		return
 	}
 	col := NewCollector("C08", "Check.C08",
-		"submit scenarios: kind x 1-5 scripted nodes (accept / reject with a structured error body / slow / hang, per chunk for attestations; every method fails with the context's error once its context is finished) x concurrency x payload length, run on the real multinode service in a synctest bubble; plus util.Scatter and the immediate submitter. Non-trivial = the submission passes the empty-payload guard and at least one node does something other than accept before the timeout (scatter/immediate: non-empty input); distinct by input text")
+		"submit scenarios: kind x 1-5 scripted nodes (accept / reject with a structured error body / slow / hang, per chunk for attestations; every method fails with the context's error once its context is finished; the version endpoint serviceInfo queries answers at once, late or never, before and after the payload is handed over) x concurrency x payload length, run on the real multinode service in a synctest bubble; plus util.Scatter and the immediate submitter. Non-trivial = the submission passes the empty-payload guard and at least one node does something other than answer its version request at once and accept before the timeout (scatter/immediate: non-empty input); distinct by input text")
 	n := EnvInt("VERIF_N", 800)
 	thorough := os.Getenv("VERIF_TIER") == "thorough"
 	var ins []Input
